@@ -50,7 +50,9 @@ func chanOpsOnField(fn *ssa.Function, typName, field string) []chanOp {
 func runC16(c *Ctx) {
 	// ---- R1 lockset
 	c.rule("C16-R1", "LCK: Hub.connections/connMu, Hub.connectionStates/stateMu, Hub handler tables/handlerMu, Hub.running/runMu, Room.{connections,metadata,maxConnections}/Room.mu, RoomManager.rooms/mu, Connection.rooms/roomsMu, Connection.Data/mu, Connection.{missedPongs,lastPongTime}/heartbeatMu: every access with the mutex held, writes exclusive (log-only reads listed, not reported)")
-	g := func(t, f, m string) guard { return guard{typ: wsPkg + "." + t, field: f, class: wsPkg + "." + t + "." + m} }
+	g := func(t, f, m string) guard {
+		return guard{typ: wsPkg + "." + t, field: f, class: wsPkg + "." + t + "." + m}
+	}
 	e := newLck(c, &lckConfig{rule: "C16-R1", pkgs: []string{wsPkg, "cmd/glyph"}, guards: []guard{
 		g("Hub", "connections", "connMu"), g("Hub", "connectionStates", "stateMu"),
 		g("Hub", "onConnect", "handlerMu"), g("Hub", "onDisconnect", "handlerMu"), g("Hub", "routeOnConnect", "handlerMu"), g("Hub", "routeOnDisconnect", "handlerMu"),
